@@ -7,6 +7,18 @@ use bevy::prelude::*;
 
 //standard shortcuts
 use std::any::TypeId;
+use std::sync::atomic::{AtomicU64, Ordering};
+
+//-------------------------------------------------------------------------------------------------------------------
+//-------------------------------------------------------------------------------------------------------------------
+
+/// Source of tickets that tie prepared event metadata to the command that prepared it.
+static NEXT_TICKET: AtomicU64 = AtomicU64::new(1);
+
+fn next_ticket() -> u64
+{
+    NEXT_TICKET.fetch_add(1, Ordering::Relaxed)
+}
 
 //-------------------------------------------------------------------------------------------------------------------
 //-------------------------------------------------------------------------------------------------------------------
@@ -23,9 +35,9 @@ fn try_cleanup_data_entity(world: &mut World, entity: Entity)
 //-------------------------------------------------------------------------------------------------------------------
 //-------------------------------------------------------------------------------------------------------------------
 
-fn start_system_event(world: &mut World, system: SystemCommand)
+fn start_system_event(world: &mut World, system: SystemCommand, ticket: u64)
 {
-    world.resource_mut::<SystemEventAccessTracker>().start(system);
+    world.resource_mut::<SystemEventAccessTracker>().start(system, ticket);
 }
 
 fn end_system_event(world: &mut World)
@@ -37,9 +49,9 @@ fn end_system_event(world: &mut World)
 //-------------------------------------------------------------------------------------------------------------------
 //-------------------------------------------------------------------------------------------------------------------
 
-fn start_entity_reaction(world: &mut World, reactor: SystemCommand)
+fn start_entity_reaction(world: &mut World, reactor: SystemCommand, ticket: u64)
 {
-    world.resource_mut::<EntityReactionAccessTracker>().start(reactor);
+    world.resource_mut::<EntityReactionAccessTracker>().start(reactor, ticket);
 }
 
 fn end_entity_reaction(world: &mut World)
@@ -50,9 +62,9 @@ fn end_entity_reaction(world: &mut World)
 //-------------------------------------------------------------------------------------------------------------------
 //-------------------------------------------------------------------------------------------------------------------
 
-fn start_despawn_reaction(world: &mut World, reactor: SystemCommand)
+fn start_despawn_reaction(world: &mut World, reactor: SystemCommand, ticket: u64)
 {
-    world.resource_mut::<DespawnAccessTracker>().start(reactor);
+    world.resource_mut::<DespawnAccessTracker>().start(reactor, ticket);
 }
 
 fn end_despawn_reaction(world: &mut World)
@@ -63,10 +75,10 @@ fn end_despawn_reaction(world: &mut World)
 //-------------------------------------------------------------------------------------------------------------------
 //-------------------------------------------------------------------------------------------------------------------
 
-fn start_entity_event(world: &mut World, reactor: SystemCommand)
+fn start_entity_event(world: &mut World, reactor: SystemCommand, ticket: u64)
 {
-    start_entity_reaction(world, reactor);
-    world.resource_mut::<EventAccessTracker>().start(reactor);
+    start_entity_reaction(world, reactor, ticket);
+    world.resource_mut::<EventAccessTracker>().start(reactor, ticket);
 }
 
 fn end_entity_event(world: &mut World)
@@ -79,9 +91,9 @@ fn end_entity_event(world: &mut World)
 //-------------------------------------------------------------------------------------------------------------------
 //-------------------------------------------------------------------------------------------------------------------
 
-fn start_broadcast_event(world: &mut World, reactor: SystemCommand)
+fn start_broadcast_event(world: &mut World, reactor: SystemCommand, ticket: u64)
 {
-    world.resource_mut::<EventAccessTracker>().start(reactor);
+    world.resource_mut::<EventAccessTracker>().start(reactor, ticket);
 }
 
 fn end_broadcast_event(world: &mut World)
@@ -179,11 +191,12 @@ impl Command for EventCommand
             id: crate::verif::new_delivery(), kind: crate::verif::VerifApplyKind::SystemEvent,
             sys: *self.system, source: None, data: Some(self.data_entity),
         });
-        world.resource_mut::<SystemEventAccessTracker>().prepare(self.system, self.data_entity);
+        let ticket = next_ticket();
+        world.resource_mut::<SystemEventAccessTracker>().prepare(ticket, self.system, self.data_entity);
         syscommand_runner(
             world,
             self.system,
-            SystemCommandSetup::new(self.system, start_system_event),
+            SystemCommandSetup::new(self.system, ticket, start_system_event),
             SystemCommandCleanup::new(end_system_event)
         );
     }
@@ -282,44 +295,49 @@ impl Command for ReactionCommand
             }
             Self::EntityReaction{ reaction_source, reaction_type, reactor } =>
             {
-                world.resource_mut::<EntityReactionAccessTracker>().prepare(reactor, reaction_source, reaction_type);
+                let ticket = next_ticket();
+                world.resource_mut::<EntityReactionAccessTracker>().prepare(ticket, reactor, reaction_source, reaction_type);
                 syscommand_runner(
                     world,
                     reactor,
-                    SystemCommandSetup::new(reactor, start_entity_reaction),
+                    SystemCommandSetup::new(reactor, ticket, start_entity_reaction),
                     SystemCommandCleanup::new(end_entity_reaction)
                 );
             }
             Self::Despawn{ reaction_source, reactor, handle } =>
             {
-                world.resource_mut::<DespawnAccessTracker>().prepare(reactor, reaction_source, handle);
+                let ticket = next_ticket();
+                world.resource_mut::<DespawnAccessTracker>().prepare(ticket, reactor, reaction_source, handle);
                 syscommand_runner(
                     world,
                     reactor,
-                    SystemCommandSetup::new(reactor, start_despawn_reaction),
+                    SystemCommandSetup::new(reactor, ticket, start_despawn_reaction),
                     SystemCommandCleanup::new(end_despawn_reaction));
             }
             Self::EntityEvent{ target, data_entity, reactor } =>
             {
                 // Include entity reaction tracker for EntityWorldReactor.
+                let ticket = next_ticket();
                 world.resource_mut::<EntityReactionAccessTracker>().prepare(
+                    ticket,
                     reactor,
                     target,
                     EntityReactionType::Event(TypeId::of::<()>()),
                 );
-                world.resource_mut::<EventAccessTracker>().prepare(reactor, data_entity);
+                world.resource_mut::<EventAccessTracker>().prepare(ticket, reactor, data_entity);
                 syscommand_runner(world,
                     reactor,
-                    SystemCommandSetup::new(reactor, start_entity_event),
+                    SystemCommandSetup::new(reactor, ticket, start_entity_event),
                     SystemCommandCleanup::new(end_entity_event)
                 );
             }
             Self::BroadcastEvent{ data_entity, reactor } =>
             {
-                world.resource_mut::<EventAccessTracker>().prepare(reactor, data_entity);
+                let ticket = next_ticket();
+                world.resource_mut::<EventAccessTracker>().prepare(ticket, reactor, data_entity);
                 syscommand_runner(world,
                     reactor,
-                    SystemCommandSetup::new(reactor, start_broadcast_event),
+                    SystemCommandSetup::new(reactor, ticket, start_broadcast_event),
                     SystemCommandCleanup::new(end_broadcast_event)
                 );
             }
